@@ -210,6 +210,9 @@ def one_tree(args):
                 keep.append(e)
             L.mf[mp] = keep
         L.write(root)
+        # a not yet referenced sub-Manifest (any format): update probes it - an I/O error there
+        # must fail the update, not be taken for "this is no Manifest"
+        prior = drv_update.perturb_prior(rng, L, root) if rng.random() < 0.6 else []
         variant = rng.choice(['consistent', 'stray', 'stray', 'altered'])
         if variant == 'stray':
             d = rng.choice(L.dirs)
